@@ -14,7 +14,8 @@ From Anthem Require Import Base.ISet Syntax.Fol Syntax.Asp Sem.Domain Sem.Sat Se
   Model.Problem Model.Outline Model.Strong Model.External Model.Tightness Model.PrivRec Model.TauStar
   Model.Completion Model.StrategyCls Model.ExternalFull
   Proofs.SemBase Proofs.DecomposeOk Proofs.StrongOk Proofs.ExternalOk Proofs.AssemblyOk Proofs.RenameOk
-  Proofs.C02Ok Proofs.FagesBridge Proofs.PlaceholderOk Proofs.C02Full Proofs.TightnessOk Proofs.PrivateUnique.
+  Proofs.C02Ok Proofs.FagesBridge Proofs.PlaceholderOk Proofs.C02Full Proofs.TightnessOk Proofs.PrivateUnique
+  Proofs.CompletionOk Proofs.HeadPred Proofs.HeadPredPipeline Proofs.C02Priv Proofs.C02Behaviour.
 Open Scope string_scope.
 Open Scope list_scope.
 
@@ -160,6 +161,121 @@ Theorem C02_external_model_determined_by_public_part :
     forall p d, T1 p d <-> T2 p d.
 Proof. exact stable_private_determined. Qed.
 Print Assumptions C02_external_model_determined_by_public_part.
+
+(* ---------------- hypothesis 1 of docs/C02full.md: what the Assumption formulas are ---------------- *)
+(* role stability (Proofs/HeadPred.v, Properties/C19ext.v): with simplification on, the formulas
+   control_translate labels Assumption are the simplified private definitions of the unsimplified
+   theory - no private definition is lost to the conjectures, no constraint gained *)
+Theorem C02_assumptions_simplified :
+  forall (fuel : nat) (public : list pred) (th : theory),
+    (forall f, In f th -> classified f) ->
+    assumptions_of (control_translate public (map (simp_classic_total fuel) th))
+    = map (simp_classic_total fuel) (assumptions_of (control_translate public th)).
+Proof. exact assumptions_simplified. Qed.
+Print Assumptions C02_assumptions_simplified.
+
+(* ... which are exactly the completed definitions of the non-input, non-public predicates *)
+Theorem C02_assumptions_are_private_definitions :
+  forall (G : theory) (ins : list pred) (D : theory) (public : list pred),
+    completion G ins = Some D -> (forall f, In f G -> rule_like f) ->
+    exists defs cs, components G = Some (defs, cs) /\ has_head_mismatches (all_definitions G defs) = false /\
+      assumptions_of (control_translate public D)
+      = map complete_definition (filter (private_entry public) (filter (non_input ins) (all_definitions G defs))).
+Proof. exact assumptions_completion. Qed.
+Print Assumptions C02_assumptions_are_private_definitions.
+
+(* ... and hold in M iff every private predicate is supported (the premise of layer (d)) *)
+Theorem C02_private_definitions_supported :
+  forall (FI : fint) (P : program) (G D : theory) (ins public priv : list pred) (M : pint),
+    represents FI G P -> completion G ins = Some D -> (forall f, In f G -> rule_like f) ->
+    ~ private_choice P priv ->
+    (forall p, In p priv <-> In p (program_preds P) /\ ~ In p public) ->
+    incl ins public ->
+    (tvalid FI M (assumptions_of (control_translate public D)) <-> priv_supported M P priv).
+Proof. exact private_definitions_supported. Qed.
+Print Assumptions C02_private_definitions_supported.
+
+(* for an accepted program-vs-program task (simplification on or off): the two premises
+   `tvalid FI M (assumptions_of lft)`, `tvalid FI M (assumptions_of rgt)` of
+   C02_modulo_private_uniqueness are equivalent to: the private predicates of the specification
+   program are supported in M, those of the program are supported in M read through the renaming *)
+Theorem C02_assumptions_iff_private_supported :
+  forall (fuel : nat) (t : ext_task) (L : program) w pbs lft rgt,
+    et_specification t = inl L ->
+    external_decompose_full fuel t = XOk w pbs ->
+    task_left tau_star_total completion (simp_classic_total fuel) t L = Some lft ->
+    task_right tau_star_total completion (simp_classic_total fuel) t = Some rgt ->
+    forall (FI : fint) (M : pint),
+      (tvalid FI M (assumptions_of lft) <->
+       priv_supported M (ph_program FI (task_placeholders t) L) (task_spec_private t)) /\
+      (tvalid FI M (assumptions_of rgt) <->
+       priv_supported (reindex (task_mapping t) M) (ph_program FI (task_placeholders t) (et_program t)) (task_prog_private t)).
+Proof. exact accepted_assumptions_supported. Qed.
+Print Assumptions C02_assumptions_iff_private_supported.
+
+(* ---------------- layer (d) applied: quantification over the public part ---------------- *)
+(* pub_agree t N M := N and M agree on every public (input or output) predicate of the user guide.
+   One side: if M satisfies the Assumption formulas of a program's translated theory (= is supported
+   on its private predicates), then "SOME interpretation with M's public part is an external stable
+   model of the program" already means that M itself is one: the public part of an external stable
+   model determines the private part. *)
+Theorem C02_external_stable_public_part :
+  forall (fuel : nat) (t : ext_task) (P : program) (G th : theory) (FI : fint) (M : pint),
+    is_tight P = true ->
+    (forall r h, In r P -> head_pred (rhead r) = Some h -> ~ In h (task_inputs t)) ->
+    TauStar.tau_star P = Some G ->
+    theory_translate tau_star_total completion (simp_classic_total fuel) t (task_placeholders t) P = Some th ->
+    has_private_recursion P (private_predicates (ug_public_predicates (et_user_guide t)) (program_preds P)) = false ->
+    tvalid FI M (assumptions_of (control_translate (ug_public_predicates (et_user_guide t)) th)) ->
+    ((exists N, pub_agree t N M /\ ext_stable_full t FI N P) <-> ext_stable_full t FI M P).
+Proof. exact ext_stable_public_part. Qed.
+Print Assumptions C02_external_stable_public_part.
+
+(* C02_modulo_private_uniqueness with "the other program cannot produce this public part":
+   same hypotheses; the right-hand sides now say that NO interpretation with M's public part is an
+   external stable model of the other program *)
+Theorem C02_behaviour :
+  forall (fuel : nat) (t : ext_task) (L : program) w pbs lft rgt,
+    et_specification t = inl L -> et_proof_outline t = [] ->
+    external_decompose_full fuel t = XOk w pbs ->
+    is_tight L = true -> is_tight (et_program t) = true ->
+    task_left tau_star_total completion (simp_classic_total fuel) t L = Some lft ->
+    task_right tau_star_total completion (simp_classic_total fuel) t = Some rgt ->
+    (forall uga, validated_no_clash (mkvalidated lft rgt uga empty_outline (et_decomposition t) (et_direction t) (et_break t))) ->
+    forall (FI : fint) (M : pint),
+      tvalid FI M (map (fun a => rp_formula (task_placeholders t) (an_formula a)) (filter is_assumption (ug_formulas (et_user_guide t)))) ->
+      tvalid FI M (assumptions_of lft) -> tvalid FI M (assumptions_of rgt) ->
+      (refutes_some FI M pbs <->
+       (dir_forward (et_direction t) = true /\
+        ext_stable_full t FI M L /\
+        ~ exists N, pub_agree t N (reindex (task_mapping t) M) /\ ext_stable_full t FI N (et_program t)) \/
+       (dir_backward (et_direction t) = true /\
+        ext_stable_full t FI (reindex (task_mapping t) M) (et_program t) /\
+        ~ exists N, pub_agree t N M /\ ext_stable_full t FI N L)).
+Proof. exact C02_behaviour_proof. Qed.
+Print Assumptions C02_behaviour.
+
+(* soundness of countermodels, NO hypothesis on the interpretation: whatever refutes an emitted
+   problem of an accepted task is an external stable model of one program whose public part no
+   external stable model of the other program has - no spurious countermodels *)
+Theorem C02_countermodel_sound :
+  forall (fuel : nat) (t : ext_task) (L : program) w pbs lft rgt,
+    et_specification t = inl L -> et_proof_outline t = [] ->
+    external_decompose_full fuel t = XOk w pbs ->
+    is_tight L = true -> is_tight (et_program t) = true ->
+    task_left tau_star_total completion (simp_classic_total fuel) t L = Some lft ->
+    task_right tau_star_total completion (simp_classic_total fuel) t = Some rgt ->
+    (forall uga, validated_no_clash (mkvalidated lft rgt uga empty_outline (et_decomposition t) (et_direction t) (et_break t))) ->
+    forall (FI : fint) (M : pint),
+      refutes_some FI M pbs ->
+      (dir_forward (et_direction t) = true /\
+       ext_stable_full t FI M L /\
+       ~ exists N, pub_agree t N (reindex (task_mapping t) M) /\ ext_stable_full t FI N (et_program t)) \/
+      (dir_backward (et_direction t) = true /\
+       ext_stable_full t FI (reindex (task_mapping t) M) (et_program t) /\
+       ~ exists N, pub_agree t N M /\ ext_stable_full t FI N L).
+Proof. exact C02_countermodel_proof. Qed.
+Print Assumptions C02_countermodel_sound.
 
 (* ---------------- non-vacuity: an accepted task, computed entirely in the model ---------------- *)
 Definition av (x : string) : term := TVar x.
